@@ -1,10 +1,115 @@
+(* C20 -- property theorems.  This file holds ONLY statements, `exact <lemma>`, non-vacuity examples and
+   Print Assumptions.  Units: a rectangle is four integers over a common denominator rD (degrees);
+   grid values are in half cells (1/240 degree; cell centres are odd), see Model/C20_srtm.v. *)
 From Coq Require Import ZArith List Bool String.
 From TyphonGen Require Import C20_tiles.
 From Typhon Require Import Model.C20_srtm Proofs.C20_srtm.
 Import ListNotations.
 Open Scope Z_scope.
 
+(* The translated table (27 tiles as the source has them now) is well formed: every tile is
+   tile_height x tile_width cells, tiles are pairwise disjoint, together they cover 60 S - 90 N x 180 W - 180 E,
+   names are unique and follow the SRTM30 file naming (upper-left corner). Proved by computation on the table. *)
 Theorem table_well_formed : table_ok = true.
 Proof. exact table_ok_holds. Qed.
 
+(* get_native_grids: for ANY rectangle inside the covered area the latitude and longitude vectors are accepted
+   by the checker grid_ok = non-empty, consecutive cell centres (latitude descending, longitude ascending,
+   spacing one cell), the block covers the rectangle and exceeds it by less than one cell on each side ... *)
+Theorem grid_covers_tightly : forall r, in_coverage r ->
+  grid_ok r (native_lats r) (native_lons r) = true.
+Proof. exact native_grid_ok. Qed.
+
+(* ... where the checker means exactly that (top edge = first centre + 1 hc, bottom edge = last centre - 1 hc): *)
+Theorem lat_checker_meaning : forall r lats, lat_ok r lats = true ->
+  exists top rest, lats = top :: rest /\ top mod 2 = 1 /\
+    (forall k, (S k < List.length lats)%nat -> nth (S k) lats 0 = nth k lats 0 - 2) /\
+    240 * rlat1 r <= (top + 1) * rD r /\ (top + 1 - 2) * rD r < 240 * rlat1 r /\
+    (last lats top - 1) * rD r <= 240 * rlat0 r /\ 240 * rlat0 r < (last lats top - 1 + 2) * rD r.
+Proof. exact lat_ok_sound. Qed.
+
+Theorem lon_checker_meaning : forall r lons, lon_ok r lons = true ->
+  exists lft rest, lons = lft :: rest /\ lft mod 2 = 1 /\
+    (forall k, (S k < List.length lons)%nat -> nth (S k) lons 0 = nth k lons 0 + 2) /\
+    (lft - 1) * rD r <= 240 * rlon0 r /\ 240 * rlon0 r < (lft - 1 + 2) * rD r /\
+    240 * rlon1 r <= (last lons lft + 1) * rD r /\ (last lons lft + 1 - 2) * rD r < 240 * rlon1 r.
+Proof. exact lon_ok_sound. Qed.
+
+(* elevation: for ANY tile contents `dem` and ANY rectangle inside the covered area the mosaic assembly
+   (boolean masks on every fetched tile and on the destination block, flat C-order assignment) succeeds, and
+   entry [i, j] is the value stored in a tile pixel centred at (lat[i], lon[j]) -- across 1, 2, 4 or more tiles. *)
+Theorem mosaic_cellwise : forall dem r, in_coverage r ->
+  exists e, elevation dem r = Ok e /\
+    forall i j, (i < List.length (native_lats r))%nat -> (j < List.length (native_lons r))%nat ->
+      pixel_at dem (nth i (native_lats r) 0) (nth j (native_lons r) 0) (e (Z.of_nat i) (Z.of_nat j)).
+Proof. exact mosaic_cells. Qed.
+
+(* ... and that pixel is unique: no other tile, row or column is centred there. *)
+Theorem pixel_is_unique : forall t1 r1 c1 t2 r2 c2,
+  In t1 tiles -> In t2 tiles -> 0 <= r1 < H -> 0 <= c1 < W -> 0 <= r2 < H -> 0 <= c2 < W ->
+  tile_lat t1 r1 = tile_lat t2 r2 -> tile_lon t1 c1 = tile_lon t2 c2 ->
+  t1 = t2 /\ r1 = r2 /\ c1 = c2.
+Proof. exact pixel_unique. Qed.
+
+(* get_tiles names exactly the tiles whose area intersects the rectangle (each begins before the other ends,
+   in latitude and in longitude), each once. *)
+Theorem tiles_exact : forall r, in_coverage r -> forall name,
+  In name (get_tiles r) <-> exists t, In t tiles /\ tname t = name /\ shares_area r t.
+Proof. exact get_tiles_exact. Qed.
+
+Theorem tiles_named_once : forall r, NoDup (get_tiles r).
+Proof. exact get_tiles_nodup. Qed.
+
+(* get_native_grids of a tile's own bounds reproduces get_grids of that tile (all tiles of the table) *)
+Theorem native_of_tile_bounds : forall t, In t tiles ->
+  native_lats (tile_rect t) = tile_lats t /\ native_lons (tile_rect t) = tile_lons t.
+Proof. exact native_of_tile. Qed.
+
+(* tile cache, every request history from every initial cache content: the k-th request downloads iff its tile
+   was neither in the cache initially nor requested before; the requests are served in order. *)
+Theorem download_iff_absent : forall init reqs,
+  map fst (snd (run_cache init reqs)) = reqs /\
+  forall k name, nth_error reqs k = Some name ->
+    nth_error (snd (run_cache init reqs)) k =
+    Some (name, negb (cached init name || cached (firstn k reqs) name)).
+Proof. exact cache_law. Qed.
+
+(* the arithmetic of the tree as found does NOT have these properties (DESIGN section 6, #18 and #19);
+   the witnesses, replayed on the implementation, are the findings repaired by fixes/C20_1 and C20_2 *)
+Theorem native_lats_asis_refuted :
+  let r := mkRect 1000 10001 10000 10050 10100 in
+  in_coverage r /\ lat_ok r (native_lats_asis r) = false /\ lat_ok r (native_lats r) = true.
+Proof. exact native_lats_asis_wrong. Qed.
+
+Theorem get_tiles_asis_refuted :
+  let r := mkRect 1 10 (-180) 11 (-179) in
+  in_coverage r /\ get_tiles_asis r = [] /\ get_tiles r <> [].
+Proof. exact get_tiles_asis_wrong. Qed.
+
+(* non-vacuity: an unaligned rectangle around the corner 40 N / 20 E (39.96875 .. 40.03125, 19.96875 .. 20.03125)
+   is inside the covered area, its block is 8 x 8 cells over four tiles, and the model's mosaic of the synthetic
+   world raster equals that raster cell by cell; a three-request history downloads once. *)
+Example nonvacuous :
+  let r := mkRect 32 1279 639 1281 641 in
+  let origin := [("w020n90", (0, 19200)); ("e020n90", (0, 24000));
+                 ("w020n40", (6000, 19200)); ("e020n40", (6000, 24000))]%string in
+  in_coverage r /\
+  native_lats r = [9607; 9605; 9603; 9601; 9599; 9597; 9595; 9593] /\
+  (let '(s, la, lo, ts, m) := run_elevation origin true r in
+   s = SOk /\ ts = ["w020n90"; "e020n90"; "w020n40"; "e020n40"]%string /\ m = world_matrix la lo /\
+   List.length m = 8%nat) /\
+  snd (run_cache ["a"]%string ["b"; "a"; "b"]%string) = [("b", true); ("a", false); ("b", false)]%string.
+Proof. vm_compute. repeat split; try reflexivity; try discriminate. Qed.
+
 Print Assumptions table_well_formed.
+Print Assumptions grid_covers_tightly.
+Print Assumptions lat_checker_meaning.
+Print Assumptions lon_checker_meaning.
+Print Assumptions mosaic_cellwise.
+Print Assumptions pixel_is_unique.
+Print Assumptions tiles_exact.
+Print Assumptions tiles_named_once.
+Print Assumptions native_of_tile_bounds.
+Print Assumptions download_iff_absent.
+Print Assumptions native_lats_asis_refuted.
+Print Assumptions get_tiles_asis_refuted.
